@@ -13,6 +13,12 @@
 // every repository, an audit that nothing that existed before was lost, every tag-level write in
 // serving order with the completeness of the written image at that instant, the number of
 // state-changing requests, and the exit status.  It does not judge.
+//
+// A run step may carry one scripted fault (round 5): the nth request of one class at one registry
+// is answered with an error status (404 with / without body, 410, 416, 403, 400, 405; for the rest
+// of the run for that resource) or fails once (500, connection reset).  Whether it was met is
+// written to the meta data of the trace, not to the events: the monitor judges the run by its exit
+// status and the registries' contents as for any other run.
 package main
 
 import (
@@ -21,6 +27,7 @@ import (
 	"crypto/sha256"
 	"encoding/hex"
 	"encoding/json"
+	"errors"
 	"flag"
 	"fmt"
 	"io"
@@ -74,11 +81,126 @@ type conf struct {
 }
 
 type step struct {
-	Op   string `json:"op"`   // run | move | del
-	Mode string `json:"mode"` // once | missing | check
-	Repo string `json:"repo"`
-	Tag  string `json:"tag"`
-	Img  string `json:"img"`
+	Op    string     `json:"op"`   // run | move | del
+	Mode  string     `json:"mode"` // once | missing | check
+	Repo  string     `json:"repo"`
+	Tag   string     `json:"tag"`
+	Img   string     `json:"img"`
+	Fault *faultSpec `json:"fault"` // run steps only: one scripted fault during this run (absent: none)
+}
+
+// faultSpec: the Nth request of class Cls that registry Reg receives during the run is answered
+// with the fault Kind (and, for the not-found kinds 404 / 404e / 416, so is every later request of
+// that class for the same repository / reference: the resource stays lost for the rest of the run).
+// Requests on the backup path (backup names, backup repositories, reads of target side
+// repositories of the source registry) are neither counted nor faulted.
+type faultSpec struct {
+	Reg  string `json:"reg"`  // src | tgt
+	Cls  string `json:"cls"`  // simreg request class
+	Nth  int    `json:"nth"`  // 1..
+	Kind string `json:"kind"` // 404 | 404e | 410 | 416 | 403 | 400 | 405 | 500once | reset1
+}
+
+var errFaultReset = errors.New("c18drv: scripted connection reset")
+
+type faultInj struct {
+	mu      sync.Mutex
+	f       *faultSpec
+	count   int
+	fired   bool
+	hits    int
+	vRepo   string
+	vRef    string
+	vMethod string
+}
+
+func (fi *faultInj) arm(f *faultSpec) {
+	fi.mu.Lock()
+	defer fi.mu.Unlock()
+	if f != nil && f.Cls == "" {
+		f = nil
+	}
+	fi.f, fi.count, fi.fired, fi.hits, fi.vRepo, fi.vRef, fi.vMethod = f, 0, false, 0, "", "", ""
+}
+
+func backupPath(host string, rq *simreg.Request) bool {
+	if host == "oth" || strings.HasPrefix(rq.Repo, "backups/") || strings.HasPrefix(rq.Repo, "bk/") {
+		return true
+	}
+	if strings.HasPrefix(rq.Class, "manifest_") && rq.IsTag {
+		return strings.HasPrefix(rq.Ref, "bak-") || rq.Ref == "old" || strings.HasSuffix(rq.Ref, "-old") || strings.HasPrefix(rq.Ref, "dflt-")
+	}
+	return false
+}
+
+func (fi *faultInj) intercept(host string, rq *simreg.Request) *simreg.Reply {
+	fi.mu.Lock()
+	defer fi.mu.Unlock()
+	f := fi.f
+	if f == nil || f.Reg != host || f.Cls != rq.Class || backupPath(host, rq) {
+		return nil
+	}
+	if host == "src" && strings.HasPrefix(rq.Repo, "mirror/") && (rq.Method == "GET" || rq.Method == "HEAD") && rq.Class != "tag_list" {
+		return nil // reads of a target side repository: may belong to a backup copy
+	}
+	// only the kinds after which regclient does not back off stay for the resource (a lost blob
+	// stays lost); a refusal that makes it back off (403, 400, 405, 410: seconds, doubling) and the
+	// transient kinds are answered once
+	sticky := f.Kind == "404" || f.Kind == "404e" || f.Kind == "416"
+	if fi.fired {
+		if !sticky || rq.Ref == "" || rq.Repo != fi.vRepo || rq.Ref != fi.vRef {
+			return nil
+		}
+	} else {
+		fi.count++
+		if fi.count != f.Nth {
+			return nil
+		}
+		fi.fired, fi.vRepo, fi.vRef, fi.vMethod = true, rq.Repo, rq.Ref, rq.Method
+	}
+	fi.hits++
+	code := map[string]string{"blob_get": "BLOB_UNKNOWN", "blob_head": "BLOB_UNKNOWN", "manifest_get": "MANIFEST_UNKNOWN",
+		"manifest_head": "MANIFEST_UNKNOWN", "manifest_put": "MANIFEST_UNKNOWN", "tag_list": "NAME_UNKNOWN", "catalog": "NAME_UNKNOWN",
+		"referrers": "NAME_UNKNOWN"}[rq.Class]
+	if code == "" {
+		code = "BLOB_UPLOAD_UNKNOWN"
+	}
+	body := func(c, msg string) []byte {
+		return []byte(`{"errors":[{"code":"` + c + `","message":"` + msg + `"}]}`)
+	}
+	hdr := http.Header{"Content-Type": []string{"application/json"}}
+	switch f.Kind {
+	case "404":
+		return &simreg.Reply{Status: 404, Header: hdr, Body: body(code, "unknown to registry")}
+	case "404e":
+		return &simreg.Reply{Status: 404}
+	case "410":
+		return &simreg.Reply{Status: 410, Header: hdr, Body: body(code, "gone")}
+	case "416":
+		return &simreg.Reply{Status: 416, Header: hdr, Body: body("RANGE_INVALID", "invalid content range")}
+	case "403":
+		return &simreg.Reply{Status: 403, Header: hdr, Body: body("DENIED", "requested access to the resource is denied")}
+	case "400":
+		return &simreg.Reply{Status: 400, Header: hdr, Body: body("UNSUPPORTED", "bad request")}
+	case "405":
+		return &simreg.Reply{Status: 405, Header: hdr, Body: body("UNSUPPORTED", "the operation is unsupported")}
+	case "500once":
+		return &simreg.Reply{Status: 500, Header: hdr, Body: body("UNKNOWN", "internal error")}
+	case "reset1":
+		return &simreg.Reply{Err: errFaultReset}
+	}
+	fatal("fault kind %q", f.Kind)
+	return nil
+}
+
+func (fi *faultInj) report() map[string]any {
+	fi.mu.Lock()
+	defer fi.mu.Unlock()
+	if fi.f == nil {
+		return nil
+	}
+	return map[string]any{"reg": fi.f.Reg, "cls": fi.f.Cls, "nth": fi.f.Nth, "kind": fi.f.Kind, "hit": fi.fired, "faulted": fi.hits,
+		"seen": fi.count, "repo": fi.vRepo, "ref": fi.vRef}
 }
 
 // env is the environment of the runs, which the abstract scenario does not look at.
@@ -508,6 +630,13 @@ func (hh hostHandler) ServeHTTP(w http.ResponseWriter, r *http.Request) {
 	r2.URL.Scheme, r2.URL.Host, r2.Host, r2.RequestURI = "http", hh.name, hh.name, ""
 	resp, err := hh.net.RoundTrip(r2)
 	if err != nil {
+		if hj, ok := w.(http.Hijacker); ok && errors.Is(err, errFaultReset) {
+			// scripted connection reset: the client sees the connection closed without a reply
+			if c, _, e := hj.Hijack(); e == nil {
+				_ = c.Close()
+				return
+			}
+		}
 		http.Error(w, err.Error(), http.StatusBadGateway)
 		return
 	}
@@ -856,6 +985,7 @@ func runScenario(s *scenario, u *universe, regsync, work string, timeout time.Du
 
 	w := &world{u: u, net: simreg.NewNet(), names: []string{"src", "tgt", "oth"}, hosts: map[string]*simreg.Host{}}
 	rec := &recorder{}
+	fi := &faultInj{}
 	var jit *jitter
 	if s.Conf.Parallel > 0 && len(s.Conf.Entries) > 1 {
 		h := sha256.Sum256([]byte(s.ID))
@@ -873,6 +1003,7 @@ func runScenario(s *scenario, u *universe, regsync, work string, timeout time.Du
 		h := w.net.AddHost(n, feat)
 		w.hosts[n] = h
 		name := n
+		h.Intercept = func(rq *simreg.Request) *simreg.Reply { return fi.intercept(name, rq) }
 		h.After = func(rq *simreg.Request) {
 			rec.mu.Lock()
 			defer rec.mu.Unlock()
@@ -1036,6 +1167,7 @@ func runScenario(s *scenario, u *universe, regsync, work string, timeout time.Du
 				}
 			}
 			rec.mu.Unlock()
+			fi.arm(st.Fault)
 			cfgArg := cfg
 			if s.Env.Stdin {
 				cfgArg = "-"
@@ -1087,11 +1219,16 @@ func runScenario(s *scenario, u *universe, regsync, work string, timeout time.Du
 			rec.on = false
 			evs, nwr, nmut, reqs := rec.events, rec.nwr, rec.nmut, rec.reqs
 			rec.mu.Unlock()
+			frep := fi.report()
+			fi.arm(nil)
 			tr.Events = append(tr.Events, evs...)
 			tagsA, reposA, rawAfter := w.snapshot()
 			tr.Events = append(tr.Events, vtrace.Event{"ev": "end", "mode": st.Mode, "exit": exit, "nwr": nwr, "nmut": nmut,
 				"tags": tagsA, "repos": reposA, "lost": lost(rawBefore, rawAfter)})
 			tr.Meta[fmt.Sprintf("run%d", nrun)] = map[string]any{"reqs": reqs, "exit": exit, "stderr": tail(stderr.String(), 1500)}
+			if frep != nil {
+				tr.Meta[fmt.Sprintf("run%d", nrun)].(map[string]any)["fault"] = frep
+			}
 			if timedOut {
 				tr.Meta["timeout"] = fmt.Sprintf("run %d (%s) did not finish within %s", nrun, st.Mode, timeout)
 				return tr
